@@ -305,6 +305,8 @@ def random_runs(rng, n_runs, algos, max_n=40):
         run = dict(pts=pts, metric=metric, algo=algo, k=kk, cut=cutv if algo != "kmedoids" else 0,
                    dtype=str(rng.choice(["float64", "float32", "int64", "int32"])),
                    form=str(rng.choice(["function", "estimator"])))
+        if metric == "linf" and rng.randint(3) == 0:
+            run["dtype"] = str(rng.choice(["uint8", "uint16", "uint32"]))      # unsigned data, callable metric
         if run["dtype"].startswith("float"):
             run["scale"] = float(rng.choice([1.0, 2.0 ** -30, 2.0 ** -30, 4096.0]))
         if algo == "kcenters":
